@@ -26,7 +26,9 @@ const (
 )
 
 // IsSendBuf: e selects DbSyncer.sendBuf.
-func IsSendBuf(info *types.Info, e ast.Expr) bool { return core.IsFieldNamed(info, e, Syncer, "sendBuf") }
+func IsSendBuf(info *types.Info, e ast.Expr) bool {
+	return core.IsFieldNamed(info, e, Syncer, "sendBuf")
+}
 
 // Enq is one `ds.sendBuf <- cmdDetail{...}` statement of the parser.
 type Enq struct {
@@ -49,15 +51,29 @@ type Parser struct {
 	Resp     types.Object
 	Inc      types.Object
 	Sends    []*Enq
+	c        *core.Ctx
 }
 
 // IsDecode: node is the decode statement (start of the next iteration).
 func (p *Parser) IsDecode(n ast.Node) bool { return n == ast.Node(p.Decode) }
 
-// IsSend: node is a send on sendBuf.
+// IsSend: node is a send on sendBuf, or calls a module helper that contains one.
 func (p *Parser) IsSend(n ast.Node) bool {
-	s, ok := n.(*ast.SendStmt)
-	return ok && IsSendBuf(p.Info, s.Chan)
+	if s, ok := n.(*ast.SendStmt); ok {
+		return IsSendBuf(p.Info, s.Chan)
+	}
+	if p.c == nil {
+		return false
+	}
+	for _, call := range cfgq.ExecCalls(n) {
+		if CalleeHas(p.c, p.Info, call, 3, func(info *types.Info, m ast.Node) bool {
+			s, ok := m.(*ast.SendStmt)
+			return ok && IsSendBuf(info, s.Chan)
+		}) {
+			return true
+		}
+	}
+	return false
 }
 
 // AnalyseParser builds the parser model (nil when the shape is not recognised).
@@ -66,7 +82,7 @@ func AnalyseParser(c *core.Ctx) *Parser {
 	if fn == nil {
 		return nil
 	}
-	p := &Parser{Fn: fn, Info: fn.Pkg.TypesInfo, G: cfgq.Of(c.Program, fn)}
+	p := &Parser{Fn: fn, Info: fn.Pkg.TypesInfo, G: cfgq.Of(c.Program, fn), c: c}
 	p.Fl = NewFlow(p.G)
 	body := fn.Decl.Body
 	// the decode statement: a tuple assignment from pkg/redis.MustDecodeOpt
@@ -359,7 +375,8 @@ func AnalyseSender(c *core.Ctx) *Sender {
 				s.RecvBody = b
 			} else if es, ok := cc.Comm.(*ast.ExprStmt); ok {
 				if u, ok := ast.Unparen(es.X).(*ast.UnaryExpr); ok && u.Op == token.ARROW {
-					if f := core.FieldOf(info, u.X); f != nil && f.Name() == "C" && core.NamedTypePath(info.TypeOf(ast.Unparen(u.X).(*ast.SelectorExpr).X)) == "time.Ticker" {
+					// any timer arm: a receive from a channel of time.Time (ticker.C, timer.C, time.After(d))
+					if ch, ok := info.TypeOf(u.X).Underlying().(*types.Chan); ok && core.NamedTypePath(ch.Elem()) == "time.Time" {
 						s.Tick, s.TickBody, s.TickChan = cc, b, u.X
 					}
 				}
